@@ -17,4 +17,7 @@ def add_obligations(pack, tier, seed):
     # the small-signal premise: the state matrix is the reduction of the assembled Jacobian blocks and time constants
     from contracts import fn_eig as E
     items += [(E.reduce_('C07'),), (E.calc_as('C07'), None, E.replay_calc_as)]
+    # "for every choice of inertia": an inertia (any time constant) set after initialisation is the one the rule integrates with
+    from contracts import fn_sequence as Q
+    items += [(fn_pu.model_set('C07', 'v'), None, fn_pu.replay_model_set), (Q.store_tf('C07'), None, Q.replay_store_tf)]
     run_contracts(pack, items)
